@@ -78,6 +78,11 @@ class ImplTimeout(Exception):
     pass
 
 
+class RunAborted(BaseException):
+    """the run ends early with the verdicts gathered so far (library calls that no longer terminate, wall-clock limit);
+    a BaseException so that no `except Exception` around a library call swallows it"""
+
+
 @contextlib.contextmanager
 def watchdog(seconds):
     def _raise(signum, frame):
@@ -316,6 +321,8 @@ class Run:
         self.exhaustive = False
         self.escalated = False
         self.ties = []
+        self.confirmed_timeouts = 0
+        self.aborting = False
 
     @property
     def quick(self):
@@ -395,10 +402,25 @@ class Run:
 
     # ---- running cases ---------------------------------------------------------------------------
     def call_impl(self, fn, line):
+        # once several calls have been *confirmed* not to terminate, the rest of the run gets a short limit
+        first = self.impl_timeout if self.confirmed_timeouts < 5 else 0.25      # (after an abort only replays get here)
         try:
-            with watchdog(self.impl_timeout):
+            with watchdog(first):
                 return fn(line)
         except ImplTimeout:
+            pass
+        except Exception as e:  # noqa
+            return err_name(e)
+        # The watchdog is there for calls that do not terminate, not for a busy machine: ask again with a limit no
+        # scheduling hiccup reaches before calling it a time-out (a few confirmed time-outs end the patience: a change that
+        # makes calls hang must not turn the run into hours).
+        if self.confirmed_timeouts >= 5:
+            return 'TIMEOUT'
+        try:
+            with watchdog(max(30.0, 6 * self.impl_timeout)):
+                return fn(line)
+        except ImplTimeout:
+            self.confirmed_timeouts += 1
             return 'TIMEOUT'
         except Exception as e:  # noqa
             return err_name(e)
@@ -415,7 +437,14 @@ class Run:
         lines = list(lines)
         if not lines:
             return []
-        impl_out = [self.call_impl(impl, ln) for ln in lines]
+        impl_out = []
+        for ln in lines:
+            impl_out.append(self.call_impl(impl, ln))
+            if self.confirmed_timeouts >= 5 and not self.aborting:
+                # calls of the library no longer terminate: judge what has been asked so far and end the run
+                self.aborting = True
+                lines = lines[:len(impl_out)]
+                break
         self.evaluations += len(lines)
         self.stream_counts[stream] += len(lines)
         for ln, a in zip(lines, impl_out):
@@ -462,6 +491,8 @@ class Run:
                     key = known_key(ln, a, s) if known_key else ln.split(' ', 1)[0]
                     self.report(key, f'{stream}: implementation answers {a[:80]}, the property demands {s[:80]}',
                                 {'stream': stream, 'line': ln, 'impl': a, 'spec': s})
+        if self.aborting:
+            raise RunAborted(f'{self.confirmed_timeouts} library calls were confirmed not to terminate (stream {stream})')
         return impl_out
 
     def corpus(self, impl, spec=None, **kw):
